@@ -492,6 +492,10 @@ impl HelpTemplate<'_, '_> {
                     arg.get_id(),
                     longest
                 );
+            } else {
+                // A short-only flag is assumed to be as wide as `-x`, but it can be wider
+                // (`-v...` for `ArgAction::Count`); `align_to_about` subtracts its width
+                longest = longest.max(display_width(&arg.to_string()));
             }
 
             let key = (sort_key)(arg);
